@@ -39,6 +39,22 @@ CHECKS = {
         "single-feature keys (exhaustive); writers of Board's cached fields confined to two modules; validation hashes the normalised raw "
         "board. Equality along histories follows by induction from the per-step result and C04; not claimed beyond that.",
    note=TB + "Same abstract-case assumptions as C03; hash collisions between different positions are inherent and out of scope."),
+ "C13": dict(cat="other", ref="DESIGN.md §3 C13",
+   technique="path rules over effect trees of push/pop for every instantiation; field-writer ownership; structural equality rule",
+   text="Static: for every instantiated push<M> each path is classified: the accepted path records exactly the (move, undo) pair make_raw "
+        "returned plus one repetition entry, every refused path records nothing; pop's Some-path pops, un-counts, clears the outcome and "
+        "unmakes the live board with the popped pair in that order, its None-path mutates nothing; each chain field has a frozen set of "
+        "writers; equality reads start, length, every move, outcome. Decides the recording discipline on all paths; 'current position = "
+        "replay' then follows from C03/C04 and is not established separately.",
+   note=TB + "Make::make_raw implementations are treated as opaque here (their own discipline is C02/C04)."),
+ "C14": dict(cat="other", ref="DESIGN.md §3 C14",
+   technique="exhaustive tabulation of Outcome::passes/is_force by constant folding; abstract-input path classification of calc_outcome",
+   text="Static: passes/is_force are tabulated over all 22 outcomes x 3 filters by constant folding of their MIR and compared with the "
+        "statement's table (exhaustive); chain calc_outcome is classified on every abstract input (board outcome none/strict/non-strict x "
+        "0..7 occurrences): exactly one path applies and returns what the precedence prescribes; set_auto_outcome stores iff "
+        "passes(filter); repetition table keyed by the Zobrist hash only with +1/-1 discipline. Occurrence counting over histories is not "
+        "decided (depends on C05 and inherent hash collisions).",
+   note=TB + "Board::calc_outcome is opaque here (C07)."),
 }
 
 NOT_YET = {}
